@@ -51,7 +51,7 @@ def wellformed(case):
             k = s["kind"]
             if k.startswith("switch:") and k[7:] not in names:
                 return False
-            if k.startswith(("flag:", "flagcall:")):
+            if k.startswith(("flag:", "flagcall:", "gflag:")):
                 fname = k.split(":")[1]
                 writers[fname] = writers.get(fname, 0) + 1
         if any(v > 1 for v in writers.values()):
@@ -73,6 +73,14 @@ def build(case):
             elif kind.startswith("switch:"):
                 st_ = lang.SwitchPhase(next_phase=kind[7:], id=s["id"], depends_on=s["deps"],
                                        condition=Comparison(1, "<", 0))
+            elif kind.startswith("gflag:"):
+                # a guarded assignment to the flag ("gflag:c:d": <cond>c <- ... if <cond>d; "gflag:c:!c": ... if not <cond>c):
+                # still an assignment to it - two of them are one too many whatever their guards are
+                from pymbolic.primitives import LogicalNot, Variable
+                _, fl, g = kind.split(":")
+                cond = LogicalNot(Variable("<cond>" + g[1:])) if g.startswith("!") else Variable("<cond>" + g)
+                st_ = lang.Assign(id=s["id"], assignee="<cond>" + fl, assignee_subscript=(),
+                                  expression=Comparison(k, "<", 2), condition=cond, depends_on=s["deps"])
             elif kind.startswith("flagcall:"):
                 # the flag is assigned by a function-call statement (also an assignment to it)
                 st_ = lang.AssignFunctionCall(id=s["id"], assignees=("<cond>" + kind.split(":")[1],),
@@ -378,6 +386,8 @@ def random_method(draw):
                 kind = "flag:" + draw(st.sampled_from(["c", "d", "c", "c:1", "c:3"]))
             elif r2 == 3:
                 kind = "flagcall:" + draw(st.sampled_from(["c", "c", "d"]))
+            elif r2 == 4:
+                kind = "gflag:" + draw(st.sampled_from(["c:c", "c:!c", "c:d", "d:c", "c:c"]))
             stmts.append({"id": sid, "deps": sorted(set(deps)), "kind": kind})
         stmts = list(draw(st.permutations(stmts)))
         phases.append(phase(names[i], draw(st.sampled_from(names)), stmts))
